@@ -41,6 +41,7 @@ type Operand struct {
 	Root    *tensor.Dense
 	Backing interface{} // typed slice: the root storage
 	Off     []int       // Off[r] = index in Backing of the logical element of row-major rank r
+	Eng     tensor.Engine // engine attached to the root tensor (nil: the default engine)
 	keep    []*tensor.Dense
 }
 
@@ -49,9 +50,13 @@ func dt(t reflect.Type) tensor.Dtype { return tensor.Dtype{Type: t} }
 // Dtype converts a model type to the library's Dtype.
 func Dtype(t reflect.Type) tensor.Dtype { return dt(t) }
 
-func newC(t reflect.Type, shape []int, vals []interface{}) (*tensor.Dense, interface{}) {
+func (op *Operand) newC(t reflect.Type, shape []int, vals []interface{}) (*tensor.Dense, interface{}) {
 	b := model.MakeSlice(t, vals)
-	d := tensor.New(tensor.WithShape(shape...), tensor.WithBacking(b))
+	opts := []tensor.ConsOpt{tensor.WithShape(shape...), tensor.WithBacking(b)}
+	if op.Eng != nil {
+		opts = append(opts, tensor.WithEngine(op.Eng))
+	}
+	d := tensor.New(opts...)
 	return d, b
 }
 
@@ -181,7 +186,12 @@ func specStrings(ms []model.SliceSpec) []string {
 // A library panic/error while building is reported as an error (the caller
 // counts the case inconclusive: operand-precondition).
 func Build(m *model.ND, layout string, rng *rand.Rand) (op *Operand, err error) {
-	op = &Operand{M: m, Asked: layout, Layout: layout, Recipe: map[string]interface{}{}}
+	return BuildWith(m, layout, rng, nil)
+}
+
+// BuildWith is Build with an execution engine attached to the root tensor (views and copies inherit it).
+func BuildWith(m *model.ND, layout string, rng *rand.Rand, eng tensor.Engine) (op *Operand, err error) {
+	op = &Operand{M: m, Asked: layout, Layout: layout, Recipe: map[string]interface{}{}, Eng: eng}
 	p, msg := core.Catch(func() { err = op.build(m, layout, rng) })
 	if p {
 		return nil, fmt.Errorf("panic while building %s operand of shape %v: %s", layout, m.Shape, msg)
@@ -193,6 +203,32 @@ func Build(m *model.ND, layout string, rng *rand.Rand) (op *Operand, err error) 
 	op.Recipe["shape"] = m.Shape
 	op.Recipe["dtype"] = model.Name(m.T)
 	return op, nil
+}
+
+func (op *Operand) consOpts(o ...tensor.ConsOpt) []tensor.ConsOpt {
+	if op.Eng != nil {
+		o = append(o, tensor.WithEngine(op.Eng))
+	}
+	return o
+}
+
+// AttachMask attaches a mask given per logical position. Only for operands that own their whole
+// storage (the library's masks are indexed by storage offset and must have the storage's length).
+func (op *Operand) AttachMask(logical []bool) error {
+	if op.D != op.Root || op.BackingLen() != len(op.Off) {
+		return fmt.Errorf("mask can only be attached to a tensor owning its storage")
+	}
+	mask := make([]bool, op.BackingLen())
+	for r, o := range op.Off {
+		mask[o] = logical[r]
+	}
+	op.D.MaskFromSlice(mask)
+	if !op.D.IsMasked() {
+		return fmt.Errorf("mask not attached")
+	}
+	op.M = op.M.Clone()
+	op.M.Mask = append([]bool(nil), logical...)
+	return nil
 }
 
 func (op *Operand) identityOff() {
@@ -214,10 +250,10 @@ func (op *Operand) build(m *model.ND, layout string, rng *rand.Rand) error {
 		var d *tensor.Dense
 		if rank == 0 {
 			b := model.MakeSlice(t, m.V)
-			d = tensor.New(tensor.WithShape(), tensor.WithBacking(b))
+			d = tensor.New(op.consOpts(tensor.WithShape(), tensor.WithBacking(b))...)
 			op.Backing = b
 		} else {
-			d, op.Backing = newC(t, m.Shape, m.V)
+			d, op.Backing = op.newC(t, m.Shape, m.V)
 		}
 		op.D, op.Root = d, d
 		op.identityOff()
@@ -226,7 +262,7 @@ func (op *Operand) build(m *model.ND, layout string, rng *rand.Rand) error {
 			return degrade()
 		}
 		b := model.MakeSlice(t, model.ColMajorSeq(m))
-		d := tensor.New(tensor.WithShape(m.Shape...), tensor.AsFortran(nil), tensor.WithBacking(b))
+		d := tensor.New(op.consOpts(tensor.WithShape(m.Shape...), tensor.AsFortran(nil), tensor.WithBacking(b))...)
 		op.D, op.Root, op.Backing = d, d, b
 		op.Off = make([]int, len(m.V))
 		model.Each(m.Shape, func(c []int, r int) { op.Off[r] = model.RankCol(m.Shape, c) })
@@ -235,7 +271,7 @@ func (op *Operand) build(m *model.ND, layout string, rng *rand.Rand) error {
 			return degrade()
 		}
 		b := model.MakeSlice(t, m.V)
-		d := tensor.New(tensor.WithShape(m.Shape...), tensor.AsFortran(b))
+		d := tensor.New(op.consOpts(tensor.WithShape(m.Shape...), tensor.AsFortran(b))...)
 		op.D, op.Root, op.Backing = d, d, b
 		op.Off = make([]int, len(m.V))
 		model.Each(m.Shape, func(c []int, r int) { op.Off[r] = model.RankCol(m.Shape, c) })
@@ -245,7 +281,7 @@ func (op *Operand) build(m *model.ND, layout string, rng *rand.Rand) error {
 		}
 		p := pickPerm(rank, rng)
 		base := model.Permute(m, inv(p))
-		d, b := newC(t, base.Shape, base.V)
+		d, b := op.newC(t, base.Shape, base.V)
 		if err := d.T(p...); err != nil {
 			return err
 		}
@@ -268,7 +304,7 @@ func (op *Operand) build(m *model.ND, layout string, rng *rand.Rand) error {
 			return degrade()
 		}
 		pshape, pvals, specs, mspecs, off := parentOf(m, mg, rng.Int63())
-		parent, b := newC(t, pshape, pvals)
+		parent, b := op.newC(t, pshape, pvals)
 		v, err := parent.Slice(specs...)
 		if err != nil {
 			return err
@@ -279,7 +315,7 @@ func (op *Operand) build(m *model.ND, layout string, rng *rand.Rand) error {
 		op.Recipe["slices"] = specStrings(mspecs)
 	case LMT, LMS, LMSS:
 		inner := map[string]string{LMT: LT, LMS: LS, LMSS: LSS}[layout]
-		src, err := Build(m, inner, rng)
+		src, err := BuildWith(m, inner, rng, op.Eng)
 		if err != nil {
 			return err
 		}
@@ -308,7 +344,7 @@ func (op *Operand) build(m *model.ND, layout string, rng *rand.Rand) error {
 		pshape, pvals, specs, mspecs, off := parentOf(m, mg, rng.Int63())
 		tparent := model.New(t, pshape, pvals)
 		base := model.Permute(tparent, inv(p))
-		d, b := newC(t, base.Shape, base.V)
+		d, b := op.newC(t, base.Shape, base.V)
 		if err := d.T(p...); err != nil {
 			return err
 		}
@@ -342,7 +378,7 @@ func (op *Operand) build(m *model.ND, layout string, rng *rand.Rand) error {
 			return degrade()
 		}
 		pshape, pvals, specs, mspecs, off := parentOf(s, mg, rng.Int63())
-		parent, b := newC(t, pshape, pvals)
+		parent, b := op.newC(t, pshape, pvals)
 		v, err := parent.Slice(specs...)
 		if err != nil {
 			return err
